@@ -244,8 +244,8 @@ Inductive cref := RTerm (v : tval) | RNode (i : N).
 Record cedge := mkE { ce_ref : cref; ce_tag : bool }.
 Record cnode := mkN { cn_level : N; cn_t : cedge; cn_e : cedge }.
 
-(** BDD is represented like BCDD (⊥ = complemented ⊤): levels, equality of
-    functions and semantics coincide with those of the real BDD manager. *)
+(** BDD: terminals ⊥ = [TNum 0], ⊤ = [TNum 1], no tags.  BCDD: the single terminal
+    ⊤ = [TNum 1], tag = complement.  ZBDD: ∅ = [TNum 0], {∅} = [TNum 1].  MTBDD: any value. *)
 Inductive kind := KBDD | KBCDD | KZBDD | KMTBDD.
 
 Definition level_max : N := 4294967295.                  (* LevelNo::MAX *)
@@ -288,13 +288,13 @@ Definition find_or_add (store : list cnode) (n : cnode) : list cnode * cref :=
 (** [DiagramRules::reduce(..).then_insert(..)] of the four kinds *)
 Definition mk_node (k : kind) (store : list cnode) (level : N) (t e : cedge) : list cnode * cedge :=
   match k with
-  | KBDD | KBCDD =>
+  | KBCDD =>
     if cedge_eqb t e then (store, t)
     else if ce_tag t then
       let '(s, r) := find_or_add store (mkN level (neg t) (neg e)) in (s, mkE r true)
     else
       let '(s, r) := find_or_add store (mkN level t e) in (s, mkE r false)
-  | KMTBDD =>
+  | KBDD | KMTBDD =>
     if cedge_eqb t e then (store, t)
     else let '(s, r) := find_or_add store (mkN level t e) in (s, mkE r false)
   | KZBDD =>
@@ -309,11 +309,33 @@ Definition edge_level (store : list cnode) (e : cedge) : N :=
   | RNode i => match nth_error store (N.to_nat i) with Some n => cn_level n | None => level_max end
   end.
 
-(** the [complement] argument of [import]: [not_edge_owned] for BDD/BCDD; the
-    harness passes a rejecting function for the kinds without complement edges *)
-Definition complement (k : kind) (e : cedge) : res cedge :=
+(** [BDDFunction::not_edge_owned]: negation of a BDD without complement edges builds the
+    negated nodes (no computed table here: the recursion follows paths) *)
+Fixpoint bdd_not (store : list cnode) (fuel : nat) (e : cedge) : res (list cnode * cedge) :=
+  match ce_ref e with
+  | RTerm (TNum z) => Ok (store, mkE (RTerm (TNum (1 - z))) false)
+  | RTerm _ => Err EInternal
+  | RNode i =>
+    match fuel with
+    | O => Err EInternal
+    | S f =>
+      match nth_error store (N.to_nat i) with
+      | None => Err EInternal
+      | Some n =>
+        '(s1, t') <- bdd_not store f (cn_t n) ;;
+        '(s2, e') <- bdd_not s1 f (cn_e n) ;;
+        Ok (mk_node KBDD s2 (cn_level n) t' e')
+      end
+    end
+  end.
+
+(** the [complement] argument of [import]: [not_edge_owned] for BDD (new nodes) and
+    BCDD (tag flip); the harness passes a rejecting function for the kinds without
+    complement edges *)
+Definition complement (k : kind) (store : list cnode) (e : cedge) : res (list cnode * cedge) :=
   match k with
-  | KBDD | KBCDD => Ok (neg e)
+  | KBCDD => Ok (store, neg e)
+  | KBDD => bdd_not store (S (length store)) e
   | _ => Err EOom
   end.
 
@@ -374,14 +396,14 @@ Definition import_bin_node (k : kind) (slm : list N) (nlevels : N) (terminal : c
     '(ei, inp) <- idx_ref inp node_id ec ;;
     e <- node_at st ei ;;
     let e_level := edge_level (st_store st) e in
-    e <- (if ecompl then complement k e else Ok e) ;;
+    '(store, e) <- (if ecompl then complement k (st_store st) e else Ok (st_store st, e)) ;;
     vid <- resolve_vid slm nlevels vc vid t_level e_level ;;
     match nth_error slm (N.to_nat vid) with
     | None => Err EVarRange
     | Some level =>
       if (t_level <=? level) || (e_level <=? level) then Err ELevel
       else
-        let '(store, r) := mk_node k (st_store st) level t e in
+        let '(store, r) := mk_node k store level t e in
         Ok (mkS store (st_nodes st ++ [r]), inp)
     end
   end.
@@ -524,7 +546,11 @@ Definition parse_i64 (tok : list byte) : option Z :=
 (** [ParseTagged::parse] of BDDTerminal, BCDDTerminal, ZBDDTerminal, I64 *)
 Definition parse_terminal (k : kind) (tok : list byte) : option cedge :=
   match k with
-  | KBDD | KBCDD =>
+  | KBDD =>
+    if one_of tok true_lits then Some (mkE (RTerm (TNum 1)) false)
+    else if one_of tok false_lits then Some (mkE (RTerm (TNum 0)) false)
+    else None
+  | KBCDD =>
     if one_of tok true_lits then Some (mkE (RTerm (TNum 1)) false)
     else if one_of tok false_lits then Some (mkE (RTerm (TNum 1)) true)
     else None
@@ -550,8 +576,8 @@ Definition ascii_child_check (st : ist) (node_id level : N) (child : Z) : res ce
     e <- node_at st (c - 1) ;;
     if edge_level (st_store st) e <=? level then Err ELevel else Ok e.
 
-Definition ascii_child_edge (k : kind) (e : cedge) (child : Z) : res cedge :=
-  if (child <? 0)%Z then complement k e else Ok e.
+Definition ascii_child_edge (k : kind) (store : list cnode) (e : cedge) (child : Z) : res (list cnode * cedge) :=
+  if (child <? 0)%Z then complement k store e else Ok (store, e).
 
 (** one iteration of the node loop of [import_ascii]; [varinfo_none] = [.varinfo 4] *)
 Definition import_ascii_line (k : kind) (varinfo_none : bool) (slm : list N)
@@ -581,9 +607,9 @@ Definition import_ascii_line (k : kind) (varinfo_none : bool) (slm : list N)
           | Some level =>
             e1 <- ascii_child_check st node_id level c1 ;;
             e2 <- ascii_child_check st node_id level c2 ;;
-            e1 <- ascii_child_edge k e1 c1 ;;
-            e2 <- ascii_child_edge k e2 c2 ;;
-            let '(store, r) := mk_node k (st_store st) level e1 e2 in
+            '(store, e1) <- ascii_child_edge k (st_store st) e1 c1 ;;
+            '(store, e2) <- ascii_child_edge k store e2 c2 ;;
+            let '(store, r) := mk_node k store level e1 e2 in
             Ok (mkS store (st_nodes st ++ [r]))
           end
       | _ => Err EArity
@@ -618,9 +644,9 @@ Definition reads_end (inp : list byte) : bool :=
   | _ => false
   end.
 
-Fixpoint import_roots (k : kind) (st : ist) (rootids : list Z) : res (list cedge) :=
+Fixpoint import_roots (k : kind) (st : ist) (rootids : list Z) : res (ist * list cedge) :=
   match rootids with
-  | [] => Ok []
+  | [] => Ok (st, [])
   | r :: rs =>
     if (r =? 0)%Z then Err ERoot
     else
@@ -628,9 +654,9 @@ Fixpoint import_roots (k : kind) (st : ist) (rootids : list Z) : res (list cedge
            | Some e => Ok e
            | None => Err ERoot
            end ;;
-      e <- (if (r <? 0)%Z then complement k e else Ok e) ;;
-      es <- import_roots k st rs ;;
-      Ok (e :: es)
+      '(store, e) <- (if (r <? 0)%Z then complement k (st_store st) e else Ok (st_store st, e)) ;;
+      '(st', es) <- import_roots k (mkS store (st_nodes st)) rs ;;
+      Ok (st', e :: es)
   end.
 
 (** import.rs [import] after [DumpHeader::load]: [ascii], [varinfo_none],
@@ -640,9 +666,7 @@ Definition import_file (k : kind) (ascii varinfo_none : bool) (slm : list N) (nl
   '(st, rest) <- (if ascii then import_ascii k varinfo_none slm nnodes inp
                   else import_bin k slm nlevels nnodes inp) ;;
   if negb (reads_end rest) then Err EEnd
-  else
-    roots <- import_roots k st rootids ;;
-    Ok (st, roots).
+  else import_roots k st rootids.
 
 (** ** semantics of the imported diagram (used by the driver to compare with
     [eval] of the real handles); [env level] = value of the variable at [level] *)
